@@ -725,11 +725,11 @@ def c09(run):
                        "(AutoCommit edits with diff_incremental, rollback, receiving sync messages, isolate / integrate, load "
                        "with a patch log) run on private copies at the end of every scenario; non-trivial = scenario with "
                        "non-empty patches from a remote delivery")
-    interp_trace(run, ["C09"], "conflictpatch", sizes(run, 150, 3000), has_remote_patches, spec="Trace_View.tla")
-    interp_trace(run, ["C09"], "patch", sizes(run, 100, 2000), has_remote_patches, spec="Trace_View.tla")
+    interp_trace(run, ["C09"], "conflictpatch", sizes(run, 150, 1500), has_remote_patches, spec="Trace_View.tla")
+    interp_trace(run, ["C09"], "patch", sizes(run, 100, 1000), has_remote_patches, spec="Trace_View.tla")
     # text under the UTF-8 / UTF-16 encodings: patch indexes and lengths are in units (View.tla ApplyPatchE), also for
     # deletions that start inside a multi-unit character
-    interp_trace(run, ["C09"], "patchtext", sizes(run, 120, 2500), has_remote_patches, spec="Trace_View.tla")
+    interp_trace(run, ["C09"], "patchtext", sizes(run, 120, 1000), has_remote_patches, spec="Trace_View.tla")
     # the paths the replicas of those programs do not take themselves, run on private AutoCommit copies at the end of
     # every scenario (ptrans events: edits through AutoCommit, a rolled-back transaction, receiving sync messages,
     # isolate / edits inside / integrate, load with a patch log); validated on their own so that a scenario cut at a
